@@ -57,23 +57,33 @@ pub(crate) struct SqPackHeader {
     sha1_hash: [u8; 20],
 }
 
+/// The most a deflate stream can expand its input by.
+const MAX_DEFLATE_RATIO: usize = 1032;
+
 pub(crate) fn read_data_block<T: Read + Seek>(
     mut buf: T,
     starting_position: u64,
 ) -> Option<Vec<u8>> {
     buf.seek(SeekFrom::Start(starting_position)).ok()?;
 
-    let block_header = BlockHeader::read(&mut buf).unwrap();
+    let block_header = BlockHeader::read(&mut buf).ok()?;
 
     match block_header.compression {
         CompressionMode::Compressed {
             compressed_length,
             decompressed_length,
         } => {
-            let mut compressed_data: Vec<u8> = vec![0; compressed_length as usize];
+            // lengths come from the file: reject negative ones and sizes no deflate stream of that length can produce
+            let compressed_length = usize::try_from(compressed_length).ok()?;
+            let decompressed_length = usize::try_from(decompressed_length).ok()?;
+            if decompressed_length > compressed_length.saturating_mul(MAX_DEFLATE_RATIO) + 64 {
+                return None;
+            }
+
+            let mut compressed_data: Vec<u8> = vec![0; compressed_length];
             buf.read_exact(&mut compressed_data).ok()?;
 
-            let mut decompressed_data: Vec<u8> = vec![0; decompressed_length as usize];
+            let mut decompressed_data: Vec<u8> = vec![0; decompressed_length];
             if !no_header_decompress(&mut compressed_data, &mut decompressed_data) {
                 return None;
             }
@@ -81,8 +91,13 @@ pub(crate) fn read_data_block<T: Read + Seek>(
             Some(decompressed_data)
         }
         CompressionMode::Uncompressed { file_size } => {
-            let mut local_data: Vec<u8> = vec![0; file_size as usize];
-            buf.read_exact(&mut local_data).ok()?;
+            // only allocate what the file can actually deliver
+            let file_size = u64::try_from(file_size).ok()?;
+            let mut local_data: Vec<u8> = Vec::new();
+            buf.by_ref().take(file_size).read_to_end(&mut local_data).ok()?;
+            if local_data.len() as u64 != file_size {
+                return None;
+            }
 
             Some(local_data)
         }
